@@ -537,4 +537,7 @@ def run(run, model):
     # a literal pattern whose range check is skipped is compiled as the pattern `0`: another arm is selected (shared with C10 R10.6)
     from rules import c10
     run.try_rule(c10.r10_6, model)
+    # a string pattern compares against the characters between the quotes, exactly (shared with C11 R11.5)
+    from rules import c11 as _c11b
+    run.try_rule(_c11b.r11_5, model)
     run.assume("tast_builder::build_pat and compile_struct_case read struct-pattern arguments positionally in declaration order (read and confirmed)")
